@@ -45,7 +45,7 @@ class SqrtQuadratic(BaseDatafit):
         minus_residual = Xw - y
         norm_residuals = norm(minus_residual)
 
-        if norm_residuals < 1e-2 * norm(y):
+        if norm_residuals <= 1e-2 * norm(y):
             raise ValueError("SmallResidualException")
 
         return minus_residual / norm_residuals
